@@ -67,7 +67,7 @@ class Parser:
         self.is_its = False
 
     def __set_bond_order(self, value):
-        if self.is_its and not isinstance(value, tuple):
+        if self.is_its and not isinstance(value, tuple) and value != 0:
             self.bond_order = (value, value)
         else:
             self.bond_order = value
